@@ -84,6 +84,25 @@ def replay(cases):
                     if has != within or got != (d[s][t] if within else 1e300):
                         viol.append(("prepared-cut/" + sigbase, "after prepare(cut=%s): has_prepared(%d,%d) = %r, prepared_shortest_distance = %r on %s, specification distance %r"
                                      % (cut, s, t, has, got, g, d[s][t]), c))
+        # history: a table filled twice (first with a small cut-off, then with a larger one; the docstring allows successive
+        # calls on the same structure): it holds the pairs within the LARGER cut-off, through prepare and through output_dict
+        net5 = rc.build_network(n, g)
+        net5.prepare(cut=0, verbose=False)
+        net5.prepare(cut=2, verbose=False)
+        tab5 = {}
+        net6 = rc.build_network(n, g)
+        net6.all_shortest_distances(cut=1, output_dict=tab5)
+        net6.all_shortest_distances(cut=3, output_dict=tab5)
+        ncalls += 4
+        for s in range(n):
+            for t in range(n):
+                has = bool(net5.has_prepared_shortest_distance(s, t))
+                if has != (d[s][t] <= 2) or (has and net5.prepared_shortest_distance(s, t) != d[s][t]):
+                    viol.append(("prepared-twice/" + sigbase, "after prepare(cut=0) then prepare(cut=2): pair (%d,%d) prepared=%r on %s, specification distance %r"
+                                 % (s, t, has, g, d[s][t]), c))
+        want = {(s, t): d[s][t] for s in range(n) for t in range(n) if d[s][t] <= 3}
+        if dict(tab5) != want:
+            viol.append(("table-twice/" + sigbase, "all_shortest_distances(cut=1) then (cut=3) into the same dictionary = %r on %s, specification %r" % (dict(tab5), g, want), c))
         if sigbase != "plain" or any(d[s][t] >= 1000000 for s in range(n) for t in range(n)):
             nontriv.add(repr(g))
         if len(samples) < 2 and len(g) == 3:
